@@ -120,3 +120,56 @@ def r03_7_unix_time_floors(ctx: Ctx) -> RuleResult:
             else:
                 rr.fail(f.qual, f"for {d} days + n ns (0 < n < one day) the result is {vals}, outside day {d}'s window [{lo}, {hi}]: the value is not truncated towards the start of time (instants before 1970 round the wrong way)", f.loc)
     return rr
+
+
+# shared with C11: the sign with which an offset enters instant <-> local conversions (Instant._plus/_safe_plus,
+# _LocalInstant._minus/_safe_minus, Duration._plus/_minus_small_nanoseconds are C03 arithmetic); home id R11.4
+from .c11 import r11_4_sign_discipline as _r11_4  # noqa: E402
+
+rule("C03")(_r11_4)
+
+
+@rule("C03")
+def r03_9_untrusted_guard(ctx: Ctx) -> RuleResult:
+    """`_from_untrusted_duration` is the one place where arithmetic results are range-checked before they become an Instant (every
+    operator and plus_* goes through it).  The check must constrain the quantity that is stored - the floor-day count of the
+    duration handed to the private constructor - by both bounds; testing a rounded view of it (e.g. the towards-zero `days`)
+    lets values of the first day below the minimum through."""
+    from ..exc import facts_at
+    from ..kit import inline_locals, own_nodes
+
+    rr = RuleResult("R03.9", "untrusted durations are range-checked on the stored floor-day count (both bounds) before the trusted Instant constructor", min_instances=1)
+    M = ctx.M
+    dur = M.cls("Duration")
+    for f in sorted(set(M.func_of_node.values()), key=lambda x: x.qual):
+        if f.name != "_from_untrusted_duration" or isinstance(f.node, ast.Lambda):
+            continue
+        for c in own_nodes(f.node):
+            if not (isinstance(c, ast.Call) and unparse(c.func).endswith("__ctor") and any(k.arg == "duration" for k in c.keywords)):
+                continue
+            rr.inst()
+            d = unparse(next(k.value for k in c.keywords if k.arg == "duration"))
+            facts = set()
+            for (a, op, b) in facts_at(c):
+                try:
+                    a2 = unparse(inline_locals(f.node, ast.parse(a, mode="eval").body))
+                except SyntaxError:
+                    a2 = a
+                facts.add((a2, op, b))
+            lower = [a for (a, op, b) in facts if op == ">=" and b.endswith("_MIN_DAYS")]
+            upper = [a for (a, op, b) in facts if op == "<=" and b.endswith("_MAX_DAYS")]
+
+            def stored(expr: str) -> bool:
+                if not expr.startswith(d + "."):
+                    return False
+                g = M.find_method(dur, expr[len(d) + 1:])
+                if g is None or g.kind != "property":
+                    return False
+                rets = [n.value for n in own_nodes(g.node) if isinstance(n, ast.Return) and n.value is not None]
+                return len(rets) == 1 and isinstance(rets[0], ast.Attribute) and mangle("Duration", rets[0].attr) == mangle("Duration", "__days")
+
+            if any(stored(a) for a in lower) and any(stored(a) for a in upper):
+                rr.ok({"fn": f.qual, "checked": sorted(set(lower + upper))})
+            else:
+                rr.fail(f.qual, f"the trusted constructor receives `{d}` but the range test constrains {sorted(set(lower + upper)) or 'nothing'} - not the stored floor-day count of `{d}` on both sides", ctx.loc(f, c))
+    return rr
